@@ -18,7 +18,7 @@ HEADLINE = ['configurations', 'schedules_run', 'instants', 'series_checked', 'la
 ATTR = {'angular position': 'angular_position', 'angular speed': 'angular_speed', 'angular acceleration': 'angular_acceleration', 'torque': 'torque',
         'driving torque': 'driving_torque', 'load torque': 'load_torque', 'tangential force': 'tangential_force', 'bending stress': 'bending_stress',
         'contact stress': 'contact_stress', 'electric current': 'electric_current', 'pwm': 'pwm'}
-SCHEDS = ['run', 'continue', 'stop', 'reset', 'control', 'rejected', 'pwm0']
+SCHEDS = ['run', 'continue', 'stop', 'reset', 'control', 'rejected', 'pwm0', 'twin']
 
 
 def floors(tier):
@@ -128,6 +128,8 @@ def with_schedule(spec, sched, rng):
         spec['schedule'] = [dict(run, T=GEN.Q('TimeInterval', 0.3, 'ms'))]
     elif sched == 'reset':
         spec['schedule'] = [run, {'op': 'newpowertrain' if rng.random() < 0.5 else 'reset'}, {'op': 'reapply'}] + ([{'op': 'newsolver'}] if rng.random() < 0.5 else []) + [run, dict(run, T=GEN.Q('TimeInterval', 0.05, 'ms'))]
+    elif sched == 'twin':
+        spec['schedule'] = [run, {'op': 'twin'}, {'op': 'export'}, {'op': 'run', 'dt': GEN.Q('TimeInterval', 2e-5, 'sec'), 'T': GEN.Q('TimeInterval', 1e-4, 'sec')}]
     elif sched == 'pwm0':
         # motor switched off from the first instant on (duty cycle exactly 0), then switched on by hand for a continuation
         spec['ic'] = dict(spec['ic'], pwm=0)
